@@ -64,6 +64,9 @@ Property oracle (real objects only), failure signatures:
   link/mismatch, copylike/mismatch       the receiver does not show the linked / copied flows (by phase), T, P
   mix/totals                             the receiver's totals are not the sum of the inlets' totals
   proxy/mismatch                         the proxy does not show the original's contents
+  fromstreams/{phases,rows,views,stale-view,TP,raises}   MultiStream.from_streams: each given stream must be the live view of ITS phase
+  onephase/{restore-mismatch,raises}     the snapshot of a MultiStream constructed over ONE phase restores flows, phases, T, P
+                                         (both classes are oracle-only: '@' cases send nothing to the driver)
 """
 from __future__ import annotations
 import random, warnings
@@ -98,6 +101,8 @@ ASSUMPTIONS = [
     'and one-phase MultiStreams (MultiStream(phases=(p,)) and its set_data branch) are not modelled and never generated',
     'stream.temporary(T=, P=) contexts (created early, entered later, exited, and the one-line `with` form) are composed by the '
     'driver from the model operations save / T,P write / restore; the flow= and phase= arguments of temporary() are not exercised',
+    'MultiStream.from_streams and MultiStreams constructed over one phase are NOT in the Lean model: their `@` cases are '
+    'decided by the oracle on the real objects only (exact Fraction equality), no correspondence, no theorem',
     'invalid phase letters and empty phase sets are not generated',
 ]
 TRUSTED = ['Lean 4.33 kernel', 'correspondence harness harness/props/c12.py + Driver/C12.lean',
@@ -769,7 +774,106 @@ def _has_cancelling(state):
     return False
 
 
+# --------------------------------------------------------------------------
+# constructor classes: decided by the oracle on the real objects only (no model lines)
+# --------------------------------------------------------------------------
+# `MultiStream.from_streams` (the given single-phase streams BECOME the phase views) and a MultiStream constructed over
+# ONE phase (a state no conversion produces; its snapshot is a one-row MaterialIndexer) are not in the Lean model.
+# Their cases carry one line starting with '@'; nothing is sent to the driver.  All flows are dyadic, every comparison
+# is exact equality of Fractions (no float tolerance needed: the operations only copy and add dyadic numbers).
+
+def _vals(t):
+    return [float(Fraction(x)) for x in t.split(',')]
+
+
+def run_ctor(case):
+    use_chems(3)
+    t = case.ops[0].split(' ')
+    failures = []
+    def fail(sig, what):
+        failures.append({'signature': sig, 'op_index': 0, 'what': what})
+    def fl(st, key=None):
+        return [Fraction(float(st.imol[c] if key is None else st.imol[key, c])) for c in CHEMS]
+    try:
+        if t[0] == '@fromstreams':
+            # @fromstreams <T> <P> <p:f0,f1,f2;...>   streams in the GIVEN order
+            T, P = float(Fraction(t[1])), float(Fraction(t[2]))
+            parts = [x.split(':') for x in t[3].split(';')]
+            subs = [tmo.Stream(None, phase=p, T=T + 5 * i, P=P, thermo=THERMOS[0], **dict(zip(CHEMS, _vals(v))))
+                    for i, (p, v) in enumerate(parts)]
+            want = {p: [Fraction(x) for x in _vals(v)] for p, v in parts}
+            ms = tmo.MultiStream.from_streams(subs)
+            if tuple(ms.phases) != tuple(sorted(want)):
+                fail('fromstreams/phases', f'`{case.ops[0]}`: phases are {ms.phases}')
+            for st, (p, v) in zip(subs, parts):
+                if fl(ms, p) != want[p]:
+                    fail('fromstreams/rows', f'`{case.ops[0]}`: phase {p!r} of the MultiStream holds {fl(ms, p)} where the stream '
+                                             f'given for that phase holds {want[p]}')
+                    break
+                if ms[p] is not st:
+                    fail('fromstreams/views', f'`{case.ops[0]}`: ms[{p!r}] is not the stream that was given for that phase'); break
+                c = CHEMS[0]
+                old = float(ms.imol[p, c])
+                ms.imol[p, c] = old + 1.0
+                seen = float(st.imol[c])
+                st.imol[c] = old
+                back = float(ms.imol[p, c])
+                if seen != old + 1.0 or back != old:
+                    fail('fromstreams/stale-view', f'`{case.ops[0]}`: writes at phase {p!r} are not shared between the MultiStream and '
+                                                   f'the stream given for that phase'); break
+                if float(st.T) != float(ms.T) or float(st.P) != float(ms.P):
+                    fail('fromstreams/TP', f'`{case.ops[0]}`: the stream of phase {p!r} does not share T/P with the MultiStream'); break
+        elif t[0] == '@onephase':
+            # @onephase <p> <T> <P> <f0,f1,f2> <self|S:<q>|M:<q1,q2>> <get|tmp>
+            p, T, P = t[1], float(Fraction(t[2])), float(Fraction(t[3]))
+            v = _vals(t[4])
+            m = tmo.MultiStream(None, phases=(p,), T=T, P=P, thermo=THERMOS[0], **{p: list(zip(CHEMS, v))})
+            want = ((p,), [Fraction(x) for x in v], Fraction(T), Fraction(P))
+            if t[6] == 'tmp':
+                with m.temporary(T=T + 25.0):
+                    m.imol[p, CHEMS[1]] = 64.0
+                tgt = m
+            else:
+                d = m.get_data()
+                if t[5] == 'self':
+                    tgt = m
+                    m.imol[p, CHEMS[1]] = 64.0; m.T = T + 25.0
+                elif t[5].startswith('S:'):
+                    tgt = tmo.Stream(None, phase=t[5][2:], T=T + 10, P=P + 1000, thermo=THERMOS[0], **{CHEMS[2]: 2.0})
+                else:
+                    q = tuple(t[5][2:].split(','))
+                    tgt = tmo.MultiStream(None, phases=q, T=T + 10, P=P + 1000, thermo=THERMOS[0], **{q[0]: [(CHEMS[2], 2.0)]})
+                tgt.set_data(d)
+            ph = tuple(tgt.phases)
+            got = (ph, fl(tgt, p) if type(tgt) is tmo.MultiStream else fl(tgt), Fraction(float(tgt.T)), Fraction(float(tgt.P)))
+            if got != want:
+                fail('onephase/restore-mismatch', f'`{case.ops[0]}`: restoring the snapshot of a one-phase MultiStream gave {got} '
+                                                  f'where it held {want}')
+    except Exception as e:
+        fail(t[0][1:] + '/raises', f'`{case.ops[0]}` raised {type(e).__name__}: {e}')
+    return ImplResult(model_in=[], outs=[], failures=failures, tags=['ctor:' + t[0][1:]], nontrivial=tuple(case.ops))
+
+
+def gen_ctor_case(rng):
+    use_chems(3)
+    T, P = gen_T(rng), gen_P(rng)
+    if rng.random() < 0.5:
+        phases = rng.sample(PHASES, rng.choice([2, 2, 3, 3, 4]))          # given order: random, usually not sorted
+        parts = ';'.join(p + ':' + ','.join(fr(x) for x in gen_row(rng)) for p in phases)
+        return Case([f'@fromstreams {T} {P} {parts}'], {})
+    p = rng.choice(PHASES)
+    row = ','.join(fr(x) for x in gen_row(rng))
+    r = rng.random()
+    if r < 0.3: tgt = 'self'
+    elif r < 0.6: tgt = 'S:' + rng.choice(PHASES)
+    else: tgt = 'M:' + ','.join(sorted(rng.sample(PHASES, 2)))
+    how = 'tmp' if rng.random() < 0.25 else 'get'
+    return Case([f'@onephase {p} {T} {P} {row} {tgt} {how}'], {})
+
+
 def run_impl(case: Case) -> ImplResult:
+    if case.ops and case.ops[0].startswith('@'):
+        return run_ctor(case)
     U, outs, failures, interesting = run_ops(case.ops)
     tags = sorted({opkind(l) for l, o in zip(case.ops, outs) if o != 'dead' and not o.startswith('err=')})
     tags += sorted({'err:' + o.split(' ')[0][4:] for o in outs if o.startswith('err=')})
@@ -1083,7 +1187,9 @@ def generate(rng, tier, index, nworkers):
     n = max(1, b['cases'] // nworkers)
     for j in range(n):
         r = rng.random()
-        if r < 0.3:
+        if r < 0.06:
+            yield gen_ctor_case(rng)
+        elif r < 0.3:
             yield gen_case(rng, rng.randrange(2, 8))
         elif r < 0.85:
             yield gen_case(rng, rng.randrange(8, 20))
@@ -1147,6 +1253,13 @@ def corpus():
               'sphases 0 g,l,s', 'exit 0', 'enter 0', 'exit 0']),
         Case(['new M g,l 300 101325 l:4,0,0;g:0,2,0', 'view 0 l', 'tmp 0 - 90000', 'wview 0 0 7', 'wP 0 120000', 'enter 0', 'sphase 0 l',
               'exit 0', 'with 0 400 50000', 'exit 0']),
+        # constructors (oracle only): from_streams attaches each given stream to ITS phase; one-phase MultiStream snapshots
+        Case(['@fromstreams 300 101325 l:4,0,0;s:0,1,0;g:0,0,2']),
+        Case(['@fromstreams 300 101325 l:1,2,0;L:0,0,3']),
+        Case(['@onephase l 300 101325 3,0,1 self get']),
+        Case(['@onephase S 310 90000 0,2,0 M:g,l get']),
+        Case(['@onephase g 320 80000 1,0,0 S:l get']),
+        Case(['@onephase l 300 101325 3,0,1 self tmp']),
         # unlink after a link: the views follow the stream to its own copy (4329d3a)
         Case(['new M g,l 300 101325 l:4,0,0;g:0,2,0', 'new M g,l 350 90000 l:1,0,0', 'view 0 l', 'link 0 1 1 1', 'unlink 0',
               'wpar 0 l 0 7', 'wT 0 333']),
